@@ -186,7 +186,7 @@ def run(tier, seed, log, model_runs=True, enlarged=False):
                                    "serialised with 5 json.dump option sets, re-loaded and compared by strict content (kind, "
                                    "identifier URI, attribute URI, value with Python kind/datatype/lang/offset, multiplicity, "
                                    "bundle); non-trivial = >=2 record-creating calls",
-                         extra_cases=attached_bundle_programs() + __import__('harness.progs', fromlist=['x']).scoping_programs(("ExportJson",)) + __import__('harness.progs', fromlist=['x']).value_grid_programs(("ExportJson",)) + __import__('harness.progs', fromlist=['x']).subtype_programs(("ExportJson",)),
+                         extra_cases=attached_bundle_programs() + __import__('harness.progs', fromlist=['x']).same_text_programs(("ExportJson",)) + __import__('harness.progs', fromlist=['x']).scoping_programs(("ExportJson",)) + __import__('harness.progs', fromlist=['x']).value_grid_programs(("ExportJson",)) + __import__('harness.progs', fromlist=['x']).subtype_programs(("ExportJson",)),
                          theorem_note="C01_* over Json.encode_doc / decode_doc")
 
 
